@@ -76,10 +76,52 @@ def reader_release(ctx):
                                                            "objects": sum(r[0] for r in res if not isinstance(r, Err))}
 
 
+def containers_while_rotating(ctx):
+    """macrostates / reactions keep their identity while member complexes are rotated (direct statement on the implementation)"""
+    import gen_structs as gs, gen_pil
+    from common import run_impl, Err
+    rng = ctx.rng
+    reqs = []
+    structs = [s for s in gs.all_wf(5) if "+" in s]
+    for _ in range(150 if ctx.tier == "quick" else 3000):
+        specs, seen = [], set()
+        while len(specs) < rng.randrange(2, 4):
+            s = rng.choice(structs)
+            sq = gs.seq_for(rng, s, names=("a", "b"))
+            key = gen_pil.canon(sq, list(s))
+            if key not in seen:
+                seen.add(key)
+                specs.append([sq, list(s), 0])
+        reqs.append(("c05_macro_after_turns", [specs, [[rng.randrange(3), rng.randrange(-2, 5)] for _ in range(rng.randrange(1, 4))], rng.randrange(2)]))
+    bad = 0
+    for rq, r in zip(reqs, run_impl(reqs)):
+        if isinstance(r, Err) or r:
+            bad += 1
+            ctx.violation("counterexample", {"key": {"macro_after_turns": rq[1]}, "input": {"macro_after_turns": rq[1]}, "what": str(r),
+                                             "snippet": f"# harness op c05_macro_after_turns {rq[1]!r} (harness/impl/compare.py)"})
+    ctx.cov["correspondence"]["containers-while-rotating(impl)"] = {"cases": len(reqs), "failures": bad}
+
+
 def run(ctx):
     reader_release(ctx)
+    containers_while_rotating(ctx)
+    # sessions of the reader: configured classes, results held across clear_io_objects (stated on the implementation)
+    from common import run_oracle as _ro
+    _x = _ro("c15_extra.py", {"seed": ctx.seed, "n": 25 if ctx.tier == "quick" else 300})
+    for f in _x["failures"]:
+        ctx.violation("counterexample", {"key": {"extra": f["steps"]}, "input": f["steps"], "what": "; ".join(f["what"]),
+                                         "snippet": "# harness/oracles/c15_extra.py, steps: " + repr(f["steps"])})
     rh.run_check(ctx, "C05", batches, RULE, partial=PARTIAL)
 
 
 def replay(data):
+    inp = data.get("input")
+    if isinstance(inp, dict) and "macro_after_turns" in inp:
+        from common import run_impl, Err
+        r = run_impl([("c05_macro_after_turns", inp["macro_after_turns"])])[0]
+        print(r)
+        return 1 if (isinstance(r, Err) or r) else 0
+    if isinstance(inp, list) and inp and isinstance(inp[0], str):
+        print("steps of harness/oracles/c15_extra.py:", inp)
+        return 1
     return rh.replay("C05", data)
